@@ -159,9 +159,28 @@ def run(ctx):
     check_run_with_signal(ctx, prog)
     import C03_dispatch
     C03_dispatch.check(ctx, prog)
+    # what "stop() / kill() has returned" means: the request is in its one-shot port, whatever the actor's status
+    import C03_request
+    import C03_request_replay
+    C03_request.check(ctx, prog)
+    try:
+        res = C03_request_replay.battery()
+        ctx.translator_validated += len(res)
+        bad = [r for r in res if r['violated']]
+        ctx.extra['request_native_battery'] = res
+        if bad:
+            rec = {'name': 'request.native_battery', 'group': 'C03.request', 'solver_s': 0.0, 'status': 'cex'}
+            ctx.obligations.append(rec)
+            ctx.handle_cex(rec['name'], 'C03.request.native', None, lambda _m: {'replayed': True, 'detail': 'real actor, parked handler, backlog: %s' % bad[:3], 'replay': {'which': 'request'}}, rec)
+    except RuntimeError as e:
+        ctx.inconclusive.append('request native battery unavailable: %s' % str(e)[-300:])
 
 
 def replay_file(path):
     import json
     import C03_replay
-    return C03_replay.replay_from_json(json.load(open(path)))
+    d = json.load(open(path))
+    if (d.get('replay') or {}).get('which') == 'request':
+        import C03_request_replay
+        return C03_request_replay.replay_from_json(d)
+    return C03_replay.replay_from_json(d)
